@@ -9,7 +9,7 @@ global reads/writes.
 """
 import os, sys, random
 from vlib import core
-from props import c12
+from props import c33gen as c12
 
 VARIANT = 'plain'
 RULE = ("case = one declared item (struct layout, constant, enumerator, function x argument "
